@@ -440,6 +440,20 @@ func runAreaSign(c *core.Ctx) []core.Obligation {
 					} else {
 						sets = x.String()
 					}
+				case *ssa.BinOp:
+					// `flag = flag != e` / `flag ^ e`: the other spelling of the toggle
+					_, xPhi := x.X.(*ssa.Phi)
+					_, yPhi := x.Y.(*ssa.Phi)
+					if (x.Op == token.NEQ || x.Op == token.XOR) && (xPhi || yPhi) {
+						toggles++
+						if xPhi {
+							walk(x.X)
+						} else {
+							walk(x.Y)
+						}
+					} else {
+						sets = x.String()
+					}
 				case *ssa.Const:
 					// the initial false is fine; a constant assigned inside the loop shows up as a second constant edge
 					if x.Value != nil && x.Value.String() == "true" {
